@@ -21,7 +21,7 @@ print(f"mutated {p} ({n} match(es), first replaced)")
 PY
 [ $? -eq 0 ] || exit 3
 git -C $WT diff --stat | tail -1
-(cd $WT && /venv/bin/python -m pytest -q -p no:cacheprovider --continue-on-collection-errors 2>&1 | tail -1; rm -rf $WT/.hypothesis/examples)
+(cd $WT && timeout 300 /venv/bin/python -m pytest -q -p no:cacheprovider --continue-on-collection-errors 2>&1 | tail -1; rm -rf $WT/.hypothesis/examples)
 cd /verif
 for p in $PID; do
 PYTHONPATH=$WT:. PYTHONDONTWRITEBYTECODE=1 PYTHONHASHSEED=0 /venv/bin/python -m vf.run $p quick 2>&1 | grep -E "^VIOLATION|bucket=|^C[0-9]+ |HARNESS" | cut -c1-300 | head -${MUT_LINES:-8}
